@@ -562,15 +562,38 @@ func runEdDSA(c EdDSACase) ev.Outcome {
 		}
 	}
 	want, why := eddsaReference(cv, A, R, S, msg)
-	if c.Curve == "bn254" && cv.onCurve(A) && cv.onCurve(R) && S.Sign() > 0 && S.Cmp(cv.Order) < 0 {
-		// gnark-crypto's own verifier on the same (R, S, A, msg) wherever its encoding rules admit them
-		if got, ok := eddsaGnarkCryptoBN254(A, R, S, msg); ok && got != want {
+	nativeUsed := false
+	if got, ok := eddsaGnarkCrypto(cv, A, R, S, msg); ok {
+		// gnark-crypto's own verifier on the serialised (A, R, S, msg), wherever its encoding rules admit them, is
+		// the oracle; the reference equation must agree with it
+		if got != want {
 			return ev.Outcome{Discard: true, DiscardWhy: fmt.Sprintf("harness: reference equation (%v) and gnark-crypto eddsa.Verify (%v) disagree", want, got)}
 		}
+		nativeUsed = true
 	}
 	classes := []string{"eddsa-curve:" + c.Curve, "eddsa-mut:" + c.Mut, fmt.Sprintf("eddsa-native-accepts:%v", want)}
 	if !want {
 		classes = append(classes, "eddsa-reject-reason:"+why)
+	}
+	if nativeUsed {
+		classes = append(classes, "eddsa-oracle:gnark-crypto-verify")
+	}
+	if cv.onCurve(A) && cv.onCurve(R) {
+		// exact order of the defect [S]G - R - [h]A inside the 2-Sylow subgroup (1 = plain signature)
+		h := cv.Hash.New()
+		for _, v := range []*big.Int{R.X, R.Y, A.X, A.Y, msg} {
+			h.Write(feBytes(cv, v))
+		}
+		hram := new(big.Int).SetBytes(h.Sum(nil))
+		d := cv.add(cv.mul(cv.Base, S), cv.neg(cv.add(R, cv.mul(A, hram))))
+		k := 1
+		for !d.eq(teIdentity()) && k <= 8 {
+			d = cv.add(d, d)
+			k *= 2
+		}
+		if k > 1 && k <= 8 {
+			classes = append(classes, fmt.Sprintf("eddsa-defect-order:%d", k))
+		}
 	}
 	if !cv.onCurve(A) || !cv.onCurve(R) {
 		// the gadget documents no on-curve check of its own for A and R: only the
